@@ -101,6 +101,9 @@ class Interp(ObjectMixin, LoopMixin):
         key = (module, name)
         if key in self.module_cache:
             return self.module_cache[key]
+        scache = self.st.ghost.setdefault("modcache", {})
+        if key in scache:
+            return scache[key]
         kind, payload = self.index.resolve(module, name)
         if kind == "func":
             m, node = payload
@@ -129,8 +132,10 @@ class Interp(ObjectMixin, LoopMixin):
                     v = SExternal(mi.imports[name])
                 else:
                     raise Unsupported(f"unresolved name '{name}' in {module}")
-        if not isinstance(v, (SDict, SList)):  # mutable module state is re-evaluated
-            self.module_cache[key] = v
+        if isinstance(v, (SFunc, SClass, SModule, SExternal, SBuiltin, SEnum, SBool, SInt, SStr)):
+            self.module_cache[key] = v  # state-independent values
+        elif name.isupper():
+            scache[key] = v  # CONSTANTS living in the state (dicts, sets, objects): cached per state lineage
         return v
 
     # ================================================================== expressions
@@ -904,6 +909,11 @@ class Interp(ObjectMixin, LoopMixin):
             self.exec_block(node.body, env)
         except _Return as r:
             return r.value
+        except Unsupported as e:
+            if not getattr(e, "_located", False):
+                e._located = True
+                e.args = (f"{e.args[0]} [in {' > '.join(q.split(':')[-1] for q in self.call_stack[-4:])}]",)
+            raise
         finally:
             self.depth -= 1
             self.call_stack.pop()
